@@ -125,7 +125,46 @@ pub fn named_cases() -> Vec<Value> {
     v
 }
 
+/// numbers at the edges of the double format: the longest decimal spellings there are (324 fraction digits, 309
+/// integer digits), each sign, with and without a unit, alone and in a grid cell
+pub fn extreme_numbers() -> Vec<Value> {
+    let kw = libhaystack::units::get_unit("kW");
+    let mut out = Vec::new();
+    let mags = [
+        5e-324,
+        f64::MIN_POSITIVE,
+        f64::from_bits(f64::MIN_POSITIVE.to_bits() - 1),
+        f64::from_bits(0x000f_ffff_ffff_fffe),
+        1.234_567_890_123_456_7e-310,
+        f64::MAX,
+        f64::from_bits(f64::MAX.to_bits() - 1),
+        1e308,
+        9_007_199_254_740_993.0,
+        1e23,
+        1e22,
+        123_456_789_012_345_680_000.0,
+        0.1 + 0.2,
+        f64::EPSILON,
+    ];
+    for m in mags {
+        for x in [m, -m] {
+            for unit in [None, kw] {
+                let n = Value::Number(Number { value: x, unit });
+                out.push(n.clone());
+                let mut row = Dict::new();
+                row.insert("a".into(), n.clone());
+                row.insert("b".into(), Value::List(vec![n]));
+                out.push(Value::Grid(Grid::make_from_dicts(vec![row])));
+            }
+        }
+    }
+    out
+}
+
 pub fn generate(ctx: &mut Ctx) {
+    for v in extreme_numbers() {
+        ctx.case("wf:extreme", &vx::show(&v));
+    }
     for v in named_cases() {
         ctx.case("wf:named", &vx::show(&v));
     }
